@@ -310,10 +310,32 @@ def _dying_prefix(items, fault):
     return items, False
 
 
+# explicit edge IDs on which the ID-counter bookkeeping raises (TypeError / OverflowError) *after*
+# the edge has been stored: an exception at a particular point inside the call (fault "exotic_id")
+EXOTIC_IDS = [b"1", 10 ** 400, complex(1, 2), frozenset({"a"})]
+
+
 def build(kind, op, a, fault):
     """Returns (call, model_op, model_args, info)."""
     info = {"relaxed": False, "oserror": False, "named": set()}
     fk = (fault or {}).get("kind")
+    if fk == "exotic_id":
+        x = EXOTIC_IDS[fault.get("pos", 0) % len(EXOTIC_IDS)]
+        if op in ("add_edge", "add_simplex", "alias_add_edge") and a.get("idx") is not None:
+            a = dict(a, idx=x)
+            info["exotic"] = [x]
+        elif op in ("add_edges_from", "add_simplices_from", "alias_add_edges_from") and a.get("fmt") in (2, 4, 5) \
+                and a.get("items"):
+            if kind == "DH" and a["fmt"] in (2, 4):
+                x = EXOTIC_IDS[1 + fault.get("pos", 0) % 2]  # (an iterable there reads as a head)
+            items = [list(it) for it in a["items"]]
+            items[fault.get("item", 0) % len(items)][1] = x
+            a = dict(a, items=items)
+            info["exotic"] = [x]
+        if "exotic" in info:
+            info["relaxed"] = True
+        else:
+            fault, fk = None, None
     if fk in ("none_member", "unhashable_member", "dying", "empty_in_bulk", "none_node",
               "unhashable_node", "attr_junk"):
         info["relaxed"] = True
@@ -955,6 +977,27 @@ def exec_mutation(world, actor, rec):
         if set(m.nodes) == set(post["nodes"]) and set(m.edges) == set(post["edges"]):
             adopt_order(m, post)
         actor.model = m
+    if info.get("exotic"):
+        # the ID is not representable in a replay file: take the edge out again through the public
+        # API (judged like any state: integrity), adopt what is left
+        world.stats["fault_fired:exotic_id" + ("" if exc is None else ":raised")] += 1
+        try:
+            for x in info["exotic"]:
+                if any(x is e or (type(x) is type(e) and x == e) for e in list(actor.sut.edges)):
+                    with warnings.catch_warnings():
+                        warnings.simplefilter("ignore")
+                        (actor.sut.remove_simplex_id if actor.kind == "SC" else actor.sut.remove_edge)(x)
+            post, anomalies2 = snapshot(actor.sut)
+            bad2 = [(x[0], f"{x[1]!r} {x[2]}") for x in anomalies2] + integrity(post)
+        except Exception as ex:  # noqa
+            bad2 = [("exotic_edge_not_removable", f"{type(ex).__name__}: {ex}")]
+        for clause, detail in bad2:
+            world.find({iprop, "C05"}, clause, rec, actor.kind, f"after removing the edge stored by the raising call: {detail}")
+            ok = False
+        if bad2:
+            actor.snap = post
+            return False
+        actor.model = M.model_from_snapshot(actor.kind, post, frozen=actor.model.frozen)
     # C03: has_simplex answers membership exactly (present simplices, and absent node sets drawn
     # deterministically from the current nodes)
     if actor.kind == "SC" and exc is None and ok and cfg.get("sc_invariants", True) and op in SC_OWN:
